@@ -102,6 +102,12 @@ CHECKS.update({
    text="All 13 membership families for all real inputs and well-ordered parameter tuples: value in [0,1] (no division by a zero width), dispatcher = specific function, core/support/monotone-flank shape, continuity at every break point, S+Z = 1 and lins+linz = 1; the seven operators on [0,1]^2: range, commutativity, monotonicity, min/max bounds, boundary cases (min/max also bit-precisely); scheduled gains = base + weighted mean of the consequents, inside the consequent range; scratch buffer of exactly the documented size never overrun (order 3 with two simultaneously active sets).",
    note=E2NOTE + REALNOTE + " Bit-precise range of the membership functions is outside: floating-point division circuits give no SAT verdict within the budget."),
 })
+CHECKS.update({
+ "C20": dict(engine="abi-z3", cat="model_checking", design="4/C20",
+   technique="layouts and prototypes extracted from the real compilers on every run (gcc/clang on the headers and src/*.c IR, rustc on a copy of src/lib.rs with an appended offset_of!/size_of probe); z3 decides per field that every byte image is read identically, prototypes compared as machine-type vectors",
+   text="Every #[repr(C)] structure of the binding against the C structure it mirrors (size, alignment, field count/order, per-field offset+width via 'for all byte images' z3 queries, machine type class) and every extern \"C\" declaration against the C definition (arity, parameter and return machine types), for f64 and for the f32 feature (A_SIZE_REAL=4).",
+   note="x86-64 SysV only; integer signedness is not compared; the z3 queries are trivial by design - the work is extracting both layouts from the real compilers each run. Needs rustc (present offline in the image)."),
+})
 NOT_YET = {}
 
 def main():
